@@ -27,8 +27,8 @@ RULE = ("operation programs against the real State (extra instance variables age
 COMPONENTS = {"real": ["State (append, compactify, __setitem__, __getattr__)", "Model loop + Output.write (model cases)"],
               "stub": ["dict reference model (oracle)", "synthetic ocean files and scripted IBM (model cases)"]}
 ASSUMPTIONS = ["particle variables are addressed by pid and never compactified (doc/source/state.rst, test_state)"]
-TIERS = {"quick": dict(runs=9 + 80 + 300, budget_s=45, shrink=80),
-         "thorough": dict(runs=9 + 4000 + 20000, budget_s=600, shrink=120)}
+TIERS = {"quick": dict(runs=9 + 400, budget_s=45, shrink=80),
+         "thorough": dict(runs=9 + 25000, budget_s=600, shrink=120)}
 EXHAUSTIVE = {"quick": False, "thorough": False}
 REQUIRED_PROBES = ["exhaustive_batch", "random_batch", "model_run", "model_death_then_release"]
 
@@ -44,8 +44,8 @@ def generate(seed: int, tier: str, idx: int) -> dict:
     maxlen = 6 if tier == "thorough" else 5
     if idx < 9:
         return {"plan": {"kind": "batch", "first": OPS[idx], "maxlen": maxlen}}
-    nrand = 80 if tier == "quick" else 4000
-    if idx < 9 + nrand:
+    # random batches and model runs alternate so that a budget cut leaves both kinds covered
+    if (idx - 9) % 5 == 0:
         progs = []
         for _ in range(40):
             n = s.randint(6, 60)
